@@ -106,14 +106,48 @@ func CallHandlerDeferred(h handlers.Handler, op wire.Op) (res HRes) {
 		req := common.GetRequest{}
 		for i, k := range keys {
 			req.Keys = append(req.Keys, wire.KeySlice(k, op.Spare))
-			req.Opaques = append(req.Opaques, uint32(100+i))
+			if op.Opaque0 {
+				req.Opaques = append(req.Opaques, 0) // what the text protocol's multi-key get produces
+			} else {
+				req.Opaques = append(req.Opaques, uint32(100+i))
+			}
 			req.Quiet = append(req.Quiet, (op.Kind == "mget" || op.Kind == "mgete") && len(op.Quiet) == len(keys) && op.Quiet[i])
 		}
 		req.NoopEnd = (op.Kind == "mget" || op.Kind == "mgete") && op.NoopEnd
 		res.Class = "values"
-		idx := func(opq uint32) int { return int(opq) - 100 }
+		idx := func(opq uint32) int {
+			if op.Opaque0 {
+				return -1
+			}
+			return int(opq) - 100
+		}
 		answered := make([]int, len(keys))
-		note := func(opq uint32, quiet bool) {
+		byKey := map[string]int{}
+		for _, k := range keys {
+			byKey[k]++
+		}
+		defer func() {
+			// all opaques equal: answers are matched to requests by key, so many per key
+			if op.Opaque0 && res.Err == "" {
+				for _, k := range keys {
+					if n := byKey[k]; n != 0 {
+						res.Proto += fmt.Sprintf("key-%s-answered-%d-times-too-few;", k, n)
+						byKey[k] = 0
+					}
+				}
+			}
+		}()
+		note := func(opq uint32, quiet bool, key []byte) {
+			if op.Opaque0 {
+				if opq != 0 {
+					res.Proto += fmt.Sprintf("unknown-opaque-%d;", opq)
+				}
+				byKey[string(key)]--
+				if byKey[string(key)] == -1 {
+					res.Proto += fmt.Sprintf("key-%s-answered-too-often;", key)
+				}
+				return
+			}
 			i := idx(opq)
 			switch {
 			case i < 0 || i >= len(keys):
@@ -134,7 +168,7 @@ func CallHandlerDeferred(h handlers.Handler, op wire.Op) (res HRes) {
 				select {
 				case r, ok := <-rc:
 					if ok {
-						note(r.Opaque, r.Quiet)
+						note(r.Opaque, r.Quiet, r.Key)
 					}
 					if !ok {
 						rc = nil
@@ -157,7 +191,7 @@ func CallHandlerDeferred(h handlers.Handler, op wire.Op) (res HRes) {
 				select {
 				case r, ok := <-rc:
 					if ok {
-						note(r.Opaque, r.Quiet)
+						note(r.Opaque, r.Quiet, r.Key)
 					}
 					if !ok {
 						rc = nil
